@@ -544,6 +544,7 @@ type SpecDef struct {
 	Line     int
 	Assumed  bool
 	Uses     []string
+	Rec      bool
 }
 
 type SpecFile struct {
@@ -794,6 +795,8 @@ func parseSpecText(src, pkg, file string, assumed bool) (*SpecFile, error) {
 				switch {
 				case w == "twostate":
 					d.TwoState = true
+				case w == "rec" && s.kw == "sfunc":
+					d.Rec = true
 				case w == "props":
 				case len(w) >= 3 && w[0] == 'C' && unicode.IsDigit(rune(w[1])):
 					d.Props = append(d.Props, w)
